@@ -12,7 +12,7 @@ import z3
 
 from . import npmodel as N
 from . import sym
-from .core import PathInfeasible, PyRaise, Unsupported, cur, exc_isinstance
+from .core import PathEnd, PathInfeasible, PyRaise, Unsupported, cur, exc_isinstance
 from .frontend import ClassInfo, FuncInfo, Repo
 from .sym import (Arr, C, F, Obj, Opaque, Poison, Seq, SymStr, is_int, is_pyint, is_scalar, simp, zi)
 
@@ -164,10 +164,6 @@ class LoopContinue(Exception):
 class ReturnEx(Exception):
     def __init__(self, value):
         self.value = value
-
-
-class PathEnd(Exception):
-    """End of an auxiliary proof path (loop preservation etc.)."""
 
 
 UNBOUND = Poison("unbound local")
@@ -1534,11 +1530,13 @@ def assert_same(label, got, want, kind="post"):
         if (is_pyint(gl) and gl == 0) or (is_pyint(wl) and wl == 0):
             return
         k = c.fresh_int("sk")
-        with c.hypothesis(z3.And(k >= 0, k < zi(wl), k < zi(gl))):
+
+        def sub():
             N.ground(k)
             gv = got.get(k) if isinstance(got, Seq) else _sel_list(k, got)
             wv = want.get(k) if isinstance(want, Seq) else _sel_list(k, want)
             assert_same(label + "[k]", gv, wv, kind)
+        c.subproof(z3.And(k >= 0, k < zi(wl), k < zi(gl)), sub)
         return
     if isinstance(want, dict) and isinstance(got, dict):
         if set(want) != set(got):
@@ -1562,8 +1560,22 @@ def assert_same(label, got, want, kind="post"):
         if want.term is not None and got.term is not None:
             c.oblige(kind, label + ".term", want.term == got.term)
             return
+        if getattr(c, "tol", None) is not None and all(is_pyint(x) for ax in want.axes for x in ax) \
+                and all(is_pyint(x) for ax in got.axes for x in ax):
+            # concrete mode (replay): compare cell by cell
+            import itertools
+            import random as _rnd
+            cells = list(itertools.product(*[range(sym.prod(ax)) for ax in want.axes]))
+            if len(cells) > 1500:
+                cells = _rnd.Random(0).sample(cells, 1500)
+            for flat in cells:
+                wi = tuple(sym.split_index(i, ax) for i, ax in zip(flat, want.axes))
+                gi = tuple(sym.split_index(i, ax) for i, ax in zip(flat, got.axes))
+                assert_same(f"{label}{list(flat)}", got.cell(gi), want.cell(wi), kind)
+            return
         idx, rng = want.skolem("c", assume=False)
-        with c.hypothesis(sym.And_(shape_ok, rng)):
+
+        def sub():
             for t in idx:
                 if len(t) == 1:
                     N.ground(t[0])
@@ -1573,6 +1585,7 @@ def assert_same(label, got, want, kind="post"):
             gv = got.cell(tuple(gi))
             wv = want.cell(idx)
             assert_same(label + "[cell]", gv, wv, kind)
+        c.subproof(sym.And_(shape_ok, rng), sub)
         return
     if is_scalar(want) and is_scalar(got):
         from .lemmas import sum_same
